@@ -192,8 +192,10 @@ theorem wrap_progress (fx : Fixes) (hfx : fx.forceProgress = false)
     (hnf : ¬ (gsWidth (g :: gs) = lw ∧ PerfectRest fx rest)) :
     ∃ st', step fx cfg sym lw st = .next st' ∧
       (clusterCount st'.stack < clusterCount st.stack ↔ g.w + cfg.leftSym.w ≤ lw) := by
-  have hwl : widthLeftF fx cfg lw 0 (g :: gs) = lw - cfg.leftSym.w := by
-    unfold widthLeftF; simp [hfx]; omega
+  have hwl : widthLeft cfg lw 0 (g :: gs) = lw - cfg.leftSym.w := by
+    unfold widthLeft; omega
+  have htf : ∀ wl, takeFitF fx 0 wl (g :: gs) = takeFit wl (g :: gs) :=
+    fun wl => takeFitF_eq fx 0 wl _ (Or.inl hfx)
   match hstep : step fx cfg sym lw st with
   | .done .stackEmpty => rw [step_done_stackEmpty hstep] at hs; cases hs
   | .done .lineLimit => have := (step_done_lineLimit hstep).2; rw [hl] at this; cases this
@@ -212,13 +214,13 @@ theorem wrap_progress (fx : Fixes) (hfx : fx.forceProgress = false)
       rw [hs] at hs'; cases hs'
       rw [h0] at heq
       exact absurd ⟨by omega, Or.inr (Or.inl hnl)⟩ hnf
-    | split0 style' gs' rest' hs' hl' hge' hnf' hw hns =>
+    | split0 style' gs' rest' hs' hl' hge' hnf' hw hns hnfo =>
       rw [hs] at hs'; cases hs'
       rw [h0, hwl] at hw
       omega
     | splitk style' gs' rest' hs' hl' hge' hnf' hw =>
       rw [hs] at hs'; cases hs'
-      simp only [hs, clusterCount, h0, hwl]
+      simp only [hs, clusterCount, h0, hwl, htf]
       by_cases hfit : g.w + cfg.leftSym.w ≤ lw
       · have := takeFit_progress (lw - cfg.leftSym.w) g gs (by omega)
         simp only [List.length_cons] at this ⊢
